@@ -92,23 +92,25 @@ Theorem axis_reduce_matrix_refuted :
 Proof. vm_compute. split; reflexivity. Qed.
 Print Assumptions axis_reduce_matrix_refuted.
 
-(* K9: Filled on a row vector fills nothing; on a column vector it panics *)
-Theorem filled_vectors_refuted :
-  res_map (mt_data Z) (k_filled Z (rm [1; 3] [0; 1; 2] [false; false; true]) 77) = Ok [0; 1; 2] /\
-  k_filled Z (rm [3; 1] [0; 1; 2] [false; false; true]) 77 = Panic /\
+(* Filled on row and column vectors (repaired in /repo 693f960: it used to fill nothing / panic):
+   the masked cells take the fill value, on both vector shapes *)
+Theorem filled_vectors_example :
+  res_map (mt_data Z) (k_filled Z (rm [1; 3] [0; 1; 2] [false; false; true]) 77) = Ok [0; 1; 77] /\
+  res_map (mt_data Z) (k_filled Z (rm [3; 1] [0; 1; 2] [false; false; true]) 77) = Ok [0; 1; 77] /\
   ks_fill Z 77 [0; 1; 2] [false; false; true] = [0; 1; 77].
 Proof. vm_compute. repeat split; reflexivity. Qed.
-Print Assumptions filled_vectors_refuted.
+Print Assumptions filled_vectors_example.
 
-(* K10: physical transposition moves the mask with the data, except for string tensors *)
-Theorem transpose_string_refuted :
+(* physical transposition moves the mask with the data — for string tensors too (repaired in /repo
+   f218ec0: the string branch used to return before transposeMask) *)
+Theorem transpose_string_example :
   let t := mkMT Z (mkAP [3; 2] [1; 3] TR true) (Some (mkAP [2; 3] [3; 1] 0 true)) false
                 [0; 1; 2; 3; 4; 5] [false; true; false; false; false; true] false in
   res_map (k_logical_mask Z) (k_transpose Z false t) = Ok (k_logical_mask Z t) /\
-  res_map (k_logical_mask Z) (k_transpose Z true t) <> Ok (k_logical_mask Z t) /\
+  res_map (k_logical_mask Z) (k_transpose Z true t) = Ok (k_logical_mask Z t) /\
   res_map (k_logical Z) (k_transpose Z true t) = Ok (k_logical Z t).
-Proof. vm_compute. repeat split; try reflexivity. discriminate. Qed.
-Print Assumptions transpose_string_refuted.
+Proof. vm_compute. repeat split; reflexivity. Qed.
+Print Assumptions transpose_string_example.
 
 (* K11: Materialize copies the mask raw *)
 Theorem materialize_refuted :
